@@ -28,6 +28,7 @@ def decode(c):
 
 HASHNAME = z3.Function("hashname", z3.IntSort(), z3.IntSort())
 FIRST_IS_HASH = z3.Function("first_is_hash", z3.IntSort(), z3.BoolSort())
+CONCAT = z3.Function("strconcat", z3.IntSort(), z3.IntSort(), z3.IntSort())
 STR_OF_INT = z3.Function("str_of_int", z3.IntSort(), z3.IntSort())
 
 
@@ -47,7 +48,8 @@ def concat(a, b):
         return lit(a.py + b.py)
     if a.py == "#" and getattr(b, "py", None) is None and b.terms[0].decl().eq(STR_OF_INT):
         return Val(STR, [HASHNAME(b.terms[0].arg(0))])
-    raise OutOfSubset("string concatenation")
+    # any other concatenation: an opaque string (sound: nothing is known about it)
+    return Val(STR, [CONCAT(a.terms[0], b.terms[0])])
 
 
 def str_of_int(v):
